@@ -18,7 +18,7 @@ from ..harness import Prop, Result
 SCHEMA_URIS = {3: "http://json-schema.org/draft-03/schema#", 4: "http://json-schema.org/draft-04/schema#",
                6: "http://json-schema.org/draft-06/schema#", 7: "http://json-schema.org/draft-07/schema#"}
 VALIDATOR_NAMES = {3: "Draft3Validator", 4: "Draft4Validator", 6: "Draft6Validator", 7: "Draft7Validator"}
-FORMATS = [None, "", "{error.message:.0}", "\x01{error.message}\x02", "\x01{error.validator}|{error.json_path}\x02\n",
+FORMATS = [None, "", "{error.message:.0}", "\x01{error.path[0]}|{error.message}\x02", "\x01{error.message}\x02", "\x01{error.validator}|{error.json_path}\x02\n",
            "\x01{error.instance}\x02", "\x01{error.schema_path}\x02"]
 
 
@@ -46,7 +46,7 @@ def cases(draw):
         val = draw(GI.instance_for(schema if isinstance(schema, dict) else {}, 0)) if st_ == "json" else None
         insts.append({"state": st_, "value": val,
                       "name": draw(st.sampled_from(["", "", "", " with space", "{}", "{0}", "{x}", "{{y}}", "%s", "'q'",
-                                                    "é", "[1]", "$", "{error}"]))})
+                                                    "é", "[1]", "$", "{error}", "<stdin>"]))})
     stdin = None
     if n == 0:
         k = draw(st.sampled_from(["json", "json", "notjson"]))
@@ -122,13 +122,18 @@ def materialise(case, tmp):
     ipaths = []
     for i, inst in enumerate(case["instances"]):
         p = os.path.join(tmp, "inst%d%s.json" % (i, inst.get("name", "")))
+        if inst.get("name") == "<stdin>" and not any(pp == "<stdin>" for pp in ipaths):
+            # a real file whose whole name is what the tool SHOWS for standard input, given as a relative path (the
+            # run happens with the scenario's directory as working directory); standard input holds something else
+            p = "<stdin>"
+        real = os.path.join(tmp, p)          # (an absolute p stays as it is)
         if inst["state"] == "json":
-            with open(p, "w") as f:
+            with open(real, "w") as f:
                 json.dump(inst["value"], f)
         elif inst["state"] == "notjson":
-            open(p, "w").write(NOT_JSON)
+            open(real, "w").write(NOT_JSON)
         elif inst["state"] == "notutf8":
-            open(p, "wb").write(NOT_UTF8)
+            open(real, "wb").write(NOT_UTF8)
         argv += ["-i", p]
         ipaths.append(p)
     if case["output"] == "pretty":
@@ -140,7 +145,7 @@ def materialise(case, tmp):
     if case["base_uri"]:
         argv += ["--base-uri", "file://" + tmp + "/"]
     argv.append(spath)
-    stdin_text = ""
+    stdin_text = NOT_JSON if "<stdin>" in ipaths else ""
     if case["stdin"] is not None:
         stdin_text = json.dumps(case["stdin"]["value"]) if case["stdin"]["state"] == "json" else NOT_JSON
     return argv, stdin_text, spath, ipaths, schema
@@ -289,18 +294,26 @@ class C19(Prop):
             except Exception as e:
                 res.excluded = "library-raises(%s)" % impl.tname(e)
                 return res
+            fmt_ = case["error_format"] or ""
+            if "path[0]" in fmt_ and any((u[0] == "schema-err") or (u[0] == "err" and not list(u[1].path)) for u in units):
+                res.excluded = "error-format-not-applicable-to-these-errors"
+                return res
             out, err = io.StringIO(), io.StringIO()
+            cwd0 = os.getcwd()
+            os.chdir(tmp)
             try:
                 rc = cli.run(cli.parse_args(argv), stdout=out, stderr=err, stdin=io.StringIO(stdin_text))
             except BaseException as e:
                 res.fail(("in-process", "raises", impl.tname(e)), "argv=%r raised %r" % (argv, e))
                 rc = None
+            finally:
+                os.chdir(cwd0)
             if rc is not None:
                 compare(res, case, rc, out.getvalue(), err.getvalue(), ok, units, "in-process")
             if case.get("subprocess"):
                 res.labels.append("subprocess")
                 env = dict(os.environ, PYTHONPATH=harness.REPO)
-                pr = subprocess.run([sys.executable, "-m", "jsonschema"] + argv, input=stdin_text, env=env,
+                pr = subprocess.run([sys.executable, "-m", "jsonschema"] + argv, input=stdin_text, env=env, cwd=tmp,
                                     stdout=subprocess.PIPE, stderr=subprocess.PIPE, text=True, timeout=60)
                 if "Traceback (most recent call last)" in pr.stderr and case["output"] == "plain":
                     res.fail(("subprocess", "traceback"), pr.stderr[-400:])
